@@ -252,14 +252,14 @@ def _run_mixture(case, ctx):
     if fl == "henry":
         exp = numpy.array([P["K"] * p for (_, P), p in zip(comps, pp)])
         ctx.case(["closed-form-henry", dg])
-        if not numpy.allclose(n, exp, rtol=1e-6):
+        if not numpy.allclose(n, exp, rtol=1e-6, atol=2e-7 * float(numpy.sum(exp))):  # (the solver stops at ~1.5e-8 in the mole fractions: absolute in x)
             ctx.violation("iast_point/closed-form/henry", "Henry mixture: loadings differ from K_i p_i", got=n, expected=exp, **info)
     if fl == "langmuir-equal":
         nm = comps[0][1]["n_m"]
         den = 1 + sum(P["K"] * p for (_, P), p in zip(comps, pp))
         exp = numpy.array([nm * P["K"] * p / den for (_, P), p in zip(comps, pp)])
         ctx.case(["closed-form-langmuir", dg])
-        if not numpy.allclose(n, exp, rtol=1e-6):
+        if not numpy.allclose(n, exp, rtol=1e-6, atol=2e-7 * float(numpy.sum(exp))):
             ctx.violation("iast_point/closed-form/extended-langmuir", "equal-capacity Langmuir mixture: loadings differ from the extended Langmuir equation", got=n, expected=exp, **info)
     # user starting guess
     guess = list(n / n.sum())
